@@ -549,7 +549,19 @@ type convRun struct {
 	// (0, tx.ErrTransient) once - a read deadline firing between two frames; the reading
 	// loop retries. Never combined with discard.
 	stall []int
+	// entryReader: Reader.OnIntermediate. interNil: not set; interAll: reads the control
+	// payload to the end; interNone: returns at once (looks at the header only);
+	// interHalf: reads half of the payload. The reader must skip what is left itself.
+	inter int
 }
+
+const (
+	interNil = iota
+	interAll
+	interNone
+	interHalf
+	numInter
+)
 
 const (
 	contNil  = 0
@@ -569,16 +581,17 @@ type convCase struct {
 	Discard map[int]int `json:"discard_after,omitempty"`
 	Cont    int         `json:"on_continuation_reads,omitempty"`
 	Stall   []int       `json:"transient_error_before_frames,omitempty"`
+	Inter   int         `json:"on_intermediate_mode,omitempty"`
 }
 
 func (c convRun) desc() convCase {
-	return convCase{ref.Describe(c.frames), c.server, entryNames[c.entry], c.chunks, c.bufs, c.eofWD, c.discard, c.cont, c.stall}
+	return convCase{ref.Describe(c.frames), c.server, entryNames[c.entry], c.chunks, c.bufs, c.eofWD, c.discard, c.cont, c.stall, c.inter}
 }
 
 type convStats struct {
 	delivered, rejectedEarly, rejectedAtEnd, discarded int
-	retries           int // reads retried after tx.ErrTransient
-	stayedFailed      int // open: after a transient error the reader ended with a transport-type error
+	retries                                            int // reads retried after tx.ErrTransient
+	stayedFailed                                       int // open: after a transient error the reader ended with a transport-type error
 }
 
 func isData(op ws.OpCode) bool { return op == ws.OpText || op == ws.OpBinary }
@@ -614,6 +627,19 @@ func runConversation(c convRun, st *convStats) string {
 	// when the Reader moves on to that frame, i.e. after everything before it
 	// was delivered. Validity is judged on all bytes of the message, whoever
 	// consumed them.
+	if c.inter != interNil {
+		rd.OnIntermediate = func(h ws.Header, body io.Reader) error {
+			k := int(h.Length)
+			switch c.inter {
+			case interNone:
+				return nil
+			case interHalf:
+				k /= 2
+			}
+			_, err := io.ReadFull(body, make([]byte, k))
+			return err
+		}
+	}
 	var sink *[]byte
 	if c.cont != contNil {
 		rd.OnContinuation = func(h ws.Header, body io.Reader) error {
@@ -909,13 +935,24 @@ func everySplit(t *testing.T, payload []byte, seed int, count *int, st *convStat
 						run.chunks = []int{1}
 						run.bufs = []int{1, 3}
 					}
-					*count++
-					if op == ref.OpText && midSequenceCut(payload, cuts) {
-						noteMessage(payload, cuts, fmt.Sprintf("%s/server=%v/ctl=%v/bytewise=%v/oncont=%d/stalls=%v", entryNames[entry], server, withCtl, byteChunks, cont, stalled))
+					inters := []int{interNil}
+					if entry == entryReader && withCtl {
+						if mi == 0 {
+							inters = []int{interNil, interAll, interNone, interHalf}
+						} else {
+							inters = []int{mi % numInter}
+						}
 					}
-					if msg := runConversation(run, st); msg != "" {
-						hx.Failf(t, run.desc(), "%s", msg)
-						return false
+					for _, inter := range inters {
+						run.inter = inter
+						*count++
+						if op == ref.OpText && midSequenceCut(payload, cuts) {
+							noteMessage(payload, cuts, fmt.Sprintf("%s/server=%v/ctl=%v/bytewise=%v/oncont=%d/stalls=%v/onintermediate=%d", entryNames[entry], server, withCtl, byteChunks, cont, stalled, inter))
+						}
+						if msg := runConversation(run, st); msg != "" {
+							hx.Failf(t, run.desc(), "%s", msg)
+							return false
+						}
 					}
 				}
 			}
@@ -1057,6 +1094,7 @@ func TestMessageRandom(t *testing.T) {
 		seed := rapid.IntRange(0, 255).Draw(t, "keyseed")
 		if entry == entryReader {
 			run.cont = rapid.SampledFrom(contModes).Draw(t, "oncontinuation")
+			run.inter = rapid.IntRange(0, numInter-1).Draw(t, "onintermediate")
 		}
 		var stallMask uint64
 		if entry == entryReader && len(cuts) > 0 && rapid.Bool().Draw(t, "stalls?") {
@@ -1091,6 +1129,9 @@ func TestMessageRandom(t *testing.T) {
 				hx.Class(fmt.Sprintf("message/random/mid-sequence-cut=%v/ctl=%v/chunks=%s", mid, len(ctl) > 0, gen.ChunkClass(run.chunks)))
 				if entry == entryReader && len(cuts) > 0 {
 					hx.Class(fmt.Sprintf("message/random/Reader/on-continuation=%d/valid=%v", run.cont, valid))
+				}
+				if entry == entryReader && len(ctl) > 0 {
+					hx.Class(fmt.Sprintf("message/random/Reader/on-intermediate-mode=%d/valid=%v", run.inter, valid))
 				}
 			} else if !valid {
 				hx.Class("message/random/binary-with-invalid-utf8/delivered")
@@ -1150,6 +1191,7 @@ func TestConversationRandom(t *testing.T) {
 				modes = contModes[:2]
 			}
 			run.cont = rapid.SampledFrom(modes).Draw(t, "oncontinuation")
+			run.inter = rapid.IntRange(0, numInter-1).Draw(t, "onintermediate")
 			if len(run.discard) == 0 && len(frames) > 1 && rapid.Bool().Draw(t, "stalls?") {
 				mask := rapid.Uint64().Draw(t, "stallmask")
 				for i := 1; i < len(frames); i++ {
